@@ -51,7 +51,7 @@ ASSUMPTIONS = [
     "semantic theorems are over Spec/Fscm.lean (cf family): finitely many independent exogenous variables, deterministic mechanisms, evaluation along a topological order; Compatible only asks that the mechanisms read parents of G and share noise only across bidirected edges of G; the oracle samples binary/ternary variables, one binary latent per bidirected edge, private binary noise",
     "the two merge passes are modelled as 'unions of connected components of the link graph' (the depth-first traversal order, which depends on Python set iteration, is abstracted); the second pass is modelled under the invariant 'input sets are non-empty and disjoint on graph vertices', proved for the output of the first pass (mergeCommon_base_disjoint) and imposed on the generator of the stand-alone op merge_bidirected (other inputs are compared as 'unspecified')",
     "Product.safe's ordering of the factors and the order of the returned event are compared as multisets (ordering is property C11's business)",
-    "SIMPLIFY's TypeError on events that mix None with self-intervened variables is treated as a documented input rejection (no opinion); exceptions on names outside the graph are compared by category only",
+    "SIMPLIFY's TypeError on events that mix None with self-intervened variables is treated as a documented input rejection (no opinion; since repo c8cad49 it is raised only for a VALUELESS self-intervened variable, which the ctfTRu validator now rejects itself, repo 333fa44); exceptions on names outside the graph are compared by category only",
     "generated graphs are acyclic ADMGs (the property quantifies over ADMGs); cyclic graphs are not explored (the value theorem itself does not assume acyclicity of G: a self-loop on a member of An(Y_*) makes get_counterfactual_factors reject the query)",
 ]
 EXHAUSTIVE = {"quick": False, "thorough": False}
